@@ -28,9 +28,9 @@ Record rasu : Type := mkAsu { asu_idx : Z; asu_rot : m33; asu_is_ref : bool }.
 (* ReciprocalAsu::ReciprocalAsu(sg, tnt) as coded.  asu_table_idx = ccp4_hkl_asu[number-1],
    basis_rot = sg->basisop().rot, is_reference = (basisop_idx == 0). *)
 Definition make_asu (asu_table_idx : Z) (is_reference : bool) (basis_rot : m33) (tnt : bool) : rasu :=
-  if tnt then mkAsu (asu_table_idx + 10) ((0,0,0),(0,0,0),(0,0,0)) true
-  else if is_reference then mkAsu asu_table_idx ((0,0,0),(0,0,0),(0,0,0)) true
-  else mkAsu asu_table_idx basis_rot false.
+  let idx := if tnt then asu_table_idx + 10 else asu_table_idx in
+  if is_reference then mkAsu idx ((0,0,0),(0,0,0),(0,0,0)) true
+  else mkAsu idx basis_rot false.
 
 Definition asu_is_in (a : rasu) (hkl : v3) : bool :=
   if asu_is_ref a then let '(h,k,l) := hkl in is_in_ref (asu_idx a) h k l
